@@ -10,6 +10,7 @@ from collections import defaultdict, deque
 sys.setrecursionlimit(20000)
 
 
+VARIANT_DISCR = {}     # 'path::Adt::Variant' -> discriminant, filled when facts are loaded
 TYPE_LAYOUTS = {'u8': (1, 1), 'i8': (1, 1), 'u16': (2, 2), 'i16': (2, 2), 'u32': (4, 4), 'i32': (4, 4), 'u64': (8, 8), 'i64': (8, 8),
                 'usize': (8, 8), 'isize': (8, 8), 'u128': (16, 16), 'bool': (1, 1)}
 
@@ -49,6 +50,10 @@ class Facts:
             lay = a.get('layout')
             if lay:
                 TYPE_LAYOUTS[name] = (lay['size'], lay['align'])
+            if a.get('kind') == 'enum':
+                for v in a.get('variants', []):
+                    if 'discr' in v:
+                        VARIANT_DISCR['%s::%s' % (name, v['name'])] = int(v['discr'])
         self.overrides = defaultdict(list)  # (trait, method) -> [impl self]
         for im in self.impls:
             if 'trait' in im:
